@@ -20,6 +20,9 @@ pub enum Ty {
     Ptr,
     /// Result<A, B> with a non-error `Err` payload (binary_search): Coq `(A + B)%type`, Ok = inl, Err = inr
     Either(Box<Ty>, Box<Ty>),
+    /// a byte slice (`&[u8]`, `&mut [u8]`, `Vec<u8>` contents) seen as its LENGTH: `len()`, `is_empty()`,
+    /// `split_at(n)` / `s[n..]` (both panic when n > len) are the only operations
+    Slice,
     Unknown,
 }
 
@@ -33,6 +36,12 @@ pub enum Loc {
     Impl { ty: &'static str, tr: Option<&'static str>, f: &'static str },
     /// the location is inside the body of `macro_rules! mac`, instantiated textually with `subst`
     InMacro { mac: &'static str, subst: Vec<(&'static str, &'static str)>, inner: Box<Loc> },
+    /// the body of `macro_rules! mac` is ONE EXPRESSION (retry_eintr!): it is translated as the body of a
+    /// parameterless function after the textual substitution of the metavariables
+    MacroExpr { mac: &'static str, subst: Vec<(&'static str, &'static str)> },
+    /// the idx-th closure (source order) inside the function at `outer`: its parameters are the function's
+    /// parameters (types from `param_tys` / Unit), its body the function's body
+    Closure { outer: Box<Loc>, idx: usize },
 }
 
 #[derive(Debug, Clone)]
@@ -110,6 +119,29 @@ pub struct Spec {
     pub ret_wrap: Option<&'static str>,
     /// comment emitted above the definition
     pub note: &'static str,
+    // ---- third round (io.rs, copy helpers, guest_memory defaults, bitmap word loops)
+    /// implicit type parameters `{X : Type}` of the generated definition (abstract objects: a VolatileSlice, a region)
+    pub type_params: Vec<&'static str>,
+    /// opaque methods (`fns` / `effects`) whose RECEIVER is passed as the first argument
+    pub recv_arg: Vec<&'static str>,
+    /// loop kernels of a loop used as an expression: `break e` is `KReturn e` (the value of the loop);
+    /// `return` is then not allowed in the body
+    pub break_value: bool,
+    /// `while cond { body }` kernels: the step is `if cond then body else KBreak state`
+    pub loop_cond: bool,
+    /// effect kernels that also return a value: the result is `(list call * value)` (ecall / oecall)
+    pub effects_ret: bool,
+    /// names of locals whose final values are returned next to the function's value: `(value, l1, ..)`
+    pub with_locals: Vec<&'static str>,
+    /// `<ptr>.add(n)` is `padd m <line> ptr n` (the hand model treats pointer overflow like `+`) instead of `ptr_add`
+    pub ptr_checked: bool,
+    /// names / types given POSITIONALLY to the parameters of the closures translated inside the kernel
+    /// (Ty::Unit = opaque object, no binder)
+    pub closure_params: Vec<(&'static str, Ty)>,
+    /// translate the top-level statements FOLLOWING the i-th loop (`#i` state places as for loop_idx)
+    pub after_loop: Option<usize>,
+    /// `let x = ..` statements dropped by the (canonical) name they bind
+    pub skip_lets: Vec<&'static str>,
 }
 
 impl Spec {
@@ -131,6 +163,8 @@ impl Spec {
         match t {
             Type::Reference(r) => self.ty_of(&r.elem),
             Type::Paren(p) => self.ty_of(&p.elem),
+            Type::Ptr(_) => Ty::Ptr,
+            Type::Slice(_) => Ty::Slice,
             Type::Group(g) => self.ty_of(&g.elem),
             Type::Tuple(t) => {
                 if t.elems.is_empty() {
@@ -185,10 +219,12 @@ fn base(module: &'static str, group: &'static str, file: &'static str, name: &'s
         extra: vec![], fns: vec![], skip: vec![], drop_params: vec![], effects: vec![], locals: None, fields: vec![],
         consts: vec![], bitflags: None, endian: false,
         newtypes: vec!["GuestAddress", "MemoryRegionAddress", "AddrT"],
-        err_enums: vec!["Error", "MmapRegionError"],
+        err_enums: vec!["Error", "MmapRegionError", "VolatileMemoryError"],
         state: vec![], vars: vec![], step: None, loop_idx: None, until: None, param_tys: vec![], canon_params: vec![],
         recv_groups: vec![], id_methods: vec![], skip_as: vec![], rewrite: vec![], ctors: vec![], argsel: vec![],
         skip_loops: false, ret_wrap: None, note: "",
+        type_params: vec![], recv_arg: vec![], break_value: false, loop_cond: false, effects_ret: false, with_locals: vec![],
+        ptr_checked: false, closure_params: vec![], after_loop: None, skip_lets: vec![],
     }
 }
 
@@ -467,6 +503,126 @@ pub fn table() -> Vec<Spec> {
         s.step = Some(("unit", "unit"));
         s.drop_params = vec!["start_addr", "len"];
         t.push(s);
+    }
+
+    // ------------------------------------------------------------------ src/io.rs
+    {
+        let ifile = "src/io.rs";
+        let io = |name: &'static str, f: &'static str, loc: Loc| base("Io", "Io", ifile, name, f, loc);
+        let kind = |k: &'static str| (format!("ErrorKind :: {}", k), format!("EK_{}", k), Ty::Int(64));
+        let buf_len = || ex("buf . len ()", "buf_len", Ty::Int(64));
+        // retry_eintr!: ONE pass through `loop { let r = $io_call; if let Err(IOError(ref err)) = r { if
+        // err.kind() == Interrupted { continue; } } break r; }`: KNext = call again, KReturn r = the value of
+        // the loop.  An io::Error is seen as (the code of) its kind.
+        let mut s = io("retry_eintr_step", "retry_eintr", Loc::MacroExpr { mac: "retry_eintr", subst: vec![("io_call", "io_call")] });
+        s.loop_idx = Some(0);
+        s.break_value = true;
+        s.step = Some(("unit", "rres N"));
+        s.extra = vec![ext("io_call", "io_call", "rres N", Ty::Res(Box::new(Ty::Int(64))))];
+        s.consts = vec![("std :: io :: ErrorKind :: Interrupted".to_string(), "EK_Interrupted".to_string(), Ty::Int(64))];
+        s.id_methods = vec!["kind"];
+        t.push(s);
+        // default read_exact_volatile / write_all_volatile: ONE iteration of `while !partial_buf.is_empty() {
+        // match retry_eintr!(call) { Ok(0) => return Err(zero), Ok(n) => partial_buf = partial_buf.offset(n)?,
+        // Err(e) => return Err(e) } }` incl. the loop condition; the slice is an abstract object PB
+        for (name, tr, f, call, zero) in [
+            ("read_exact_step", "ReadVolatile", "read_exact_volatile", "retry_eintr ! (self . read_volatile (& mut partial_buf))", "UnexpectedEof"),
+            ("write_all_step", "WriteVolatile", "write_all_volatile", "retry_eintr ! (self . write_volatile (& partial_buf))", "WriteZero"),
+        ] {
+            let mut s = io(name, f, Loc::Trait(tr, f));
+            s.loop_idx = Some(0);
+            s.loop_cond = true;
+            s.type_params = vec!["PB"];
+            s.state = vec![ext("#0", "partial_buf", "PB", Ty::Unknown)];
+            s.step = Some(("PB", "rres unit"));
+            s.canon_params = vec!["buf"];
+            s.drop_params = vec!["buf"];
+            s.extra = vec![ext(call, "io_result", "rres N", Ty::Res(Box::new(Ty::Int(64))))];
+            s.fns = vec![ofn("offset", "offset", "PB -> N -> rres PB", Ty::Res(Box::new(Ty::Unknown))), ofn("is_empty", "is_empty", "PB -> bool", Ty::Bool)];
+            s.recv_arg = vec!["offset", "is_empty"];
+            s.consts = vec![kind(zero)];
+            s.ctors = vec![("new", vec![0])];
+            t.push(s);
+        }
+        // ReadVolatile for &[u8] / WriteVolatile for &mut [u8]: total = min, the copy (opaque: total -> count),
+        // `*self = self.split_at(n).1` (the slice `*self` seen as its length; split_at panics beyond it);
+        // result (Ok(n), new length of *self)
+        for (name, tr, f, copy, sel) in [
+            ("slice_read_volatile", "ReadVolatile", "read_volatile", "copy_to_volatile_slice", 2usize),
+            ("mslice_write_volatile", "WriteVolatile", "write_volatile", "copy_from_volatile_slice", 2usize),
+        ] {
+            let mut s = io(name, f, Loc::Impl { ty: "[T]", tr: Some(tr), f });
+            s.canon_params = vec!["buf"];
+            s.drop_params = vec!["buf"];
+            s.extra = vec![buf_len()];
+            s.state = vec![ex("self", "self_len", Ty::Slice)];
+            s.fns = vec![ofn(copy, "copy", "N -> N", Ty::Int(64))];
+            s.argsel = vec![(copy, vec![sel])];
+            t.push(s);
+        }
+        // read_exact_volatile for &[u8]: the `buf.len() > self.len()` pre-check (KReturn = the error), KNext = read_volatile runs
+        let mut s = io("slice_read_exact_guard", "read_exact_volatile", Loc::Impl { ty: "[T]", tr: Some("ReadVolatile"), f: "read_exact_volatile" });
+        s.canon_params = vec!["buf"];
+        s.drop_params = vec!["buf"];
+        s.extra = vec![buf_len(), ex("self . len ()", "self_len", Ty::Int(64))];
+        s.until = Some("self . read_volatile");
+        s.step = Some(("unit", "rres unit"));
+        s.consts = vec![kind("UnexpectedEof")];
+        s.ctors = vec![("new", vec![0])];
+        t.push(s);
+        // write_all_volatile for &mut [u8]: written == buf.len() or WriteZero
+        let mut s = io("mslice_write_all", "write_all_volatile", Loc::Impl { ty: "[T]", tr: Some("WriteVolatile"), f: "write_all_volatile" });
+        s.canon_params = vec!["buf"];
+        s.drop_params = vec!["buf"];
+        s.extra = vec![buf_len(), ext("self . write_volatile (buf)", "written", "rres N", Ty::Res(Box::new(Ty::Int(64))))];
+        s.consts = vec![kind("WriteZero")];
+        s.ctors = vec![("new", vec![0])];
+        t.push(s);
+        // WriteVolatile for Vec<u8>: reserve(count), copy of count bytes, assert_eq!, set_len(len + count), Ok(count)
+        let mut s = io("vec_write_volatile", "write_volatile", Loc::Impl { ty: "Vec", tr: Some("WriteVolatile"), f: "write_volatile" });
+        s.canon_params = vec!["buf"];
+        s.drop_params = vec!["buf"];
+        s.extra = vec![buf_len(), ex("self . len ()", "vec_len", Ty::Int(64))];
+        s.fns = vec![ofn("copy_from_volatile_slice", "copy", "N -> N", Ty::Int(64))];
+        s.argsel = vec![("copy_from_volatile_slice", vec![2])];
+        s.effects = vec!["reserve", "set_len"];
+        s.effects_ret = true;
+        t.push(s);
+        // Cursor: position clamp min(pos, len), the remaining slice `inner[len..]` handed to the slice impl
+        // (opaque: remaining length -> result), set_position(position + n)
+        let cur_extra = || vec![buf_len(), ex("self . position ()", "pos", Ty::Int(64)),
+                                ex("self . get_ref () . as_ref ()", "inner_len", Ty::Slice), ex("self . get_ref () . len ()", "inner_len", Ty::Int(64)),
+                                ex("self . get_mut ()", "inner_len", Ty::Slice)];
+        for (name, tr, f, callee, rty) in [
+            ("cursor_read_volatile", "ReadVolatile", "read_volatile", "read_volatile", Ty::Int(64)),
+            ("cursor_read_exact_volatile", "ReadVolatile", "read_exact_volatile", "read_exact_volatile", Ty::Unit),
+            ("cursor_write_volatile", "WriteVolatile", "write_volatile", "write_volatile", Ty::Int(64)),
+        ] {
+            let mut s = io(name, f, Loc::Impl { ty: "Cursor", tr: Some(tr), f });
+            s.canon_params = vec!["buf"];
+            s.drop_params = vec!["buf"];
+            s.extra = cur_extra();
+            let cty: &'static str = if rty == Ty::Unit { "N -> rres unit" } else { "N -> rres N" };
+            s.fns = vec![ofn(callee, "slice_call", cty, Ty::Res(Box::new(rty)))];
+            s.argsel = vec![(callee, vec![0])];
+            s.effects = vec!["set_position"];
+            s.effects_ret = true;
+            t.push(s);
+        }
+        // read_volatile_raw_fd / write_volatile_raw_fd: the system call is opaque (buffer length -> ssize_t);
+        // bytes < 0 => (read: mark the whole buffer) Err(last_os_error), else (read: mark bytes) Ok(bytes)
+        for (name, f, sys) in [("read_volatile_raw_fd", "read_volatile_raw_fd", "read"), ("write_volatile_raw_fd", "write_volatile_raw_fd", "write")] {
+            let mut s = io(name, f, Loc::Free(f));
+            s.canon_params = vec!["raw_fd", "buf"];
+            s.drop_params = vec!["raw_fd", "buf"];
+            s.extra = vec![buf_len(), ex("std :: io :: Error :: last_os_error ()", "last_os_error", Ty::Int(64))];
+            s.skip_lets = vec!["fd", "guard", "dst", "src"];
+            s.fns = vec![ofn(sys, "syscall", "N -> N", Ty::ISize)];
+            s.argsel = vec![(sys, vec![2])];
+            s.effects = vec!["mark_dirty"];
+            s.effects_ret = true;
+            t.push(s);
+        }
     }
     // ------------------------------------------------------------------ src/mmap/mod.rs
     {
